@@ -612,6 +612,7 @@ def check_ins_store(mon, sampler, store, name, where):
           f"log_q {None if log_q is None else log_q.shape} samples {N}")
         return
     prop = sampler.proposal
+    clip_requested = bool((mon.job.get("kwargs") or {}).get("clip", False))
     weights = dict(prop.weights)
     n_prop = len(weights)
     if log_q.shape[1] != n_prop:
@@ -620,6 +621,7 @@ def check_ins_store(mon, sampler, store, name, where):
     x = np.array(model.unstructured_view(s), dtype=float)
     if np.any(x < 0) or np.any(x > 1) or np.isnan(x).any():
         V(f"sample-outside-unit-hypercube:{key}", "")
+
     # likelihood faithful to the model
     phys = model.from_unit_hypercube(s)
     with model.quiet():
@@ -689,10 +691,13 @@ def check_ins_store(mon, sampler, store, name, where):
         if not ok.all():
             i = int(np.argmax(~ok))
             kind = ""
-            if getattr(prop, "clip", False) and np.all(on_edge[~ok]):
+            if np.all(on_edge[~ok]):
                 # every disagreeing row is a sample that was clipped onto
-                # the boundary of the unit hypercube
-                kind = ":clipped-sample"
+                # the boundary of the unit hypercube (recorded finding for
+                # runs that ask for clip=True; a proposal that clips without
+                # having been asked to is something else)
+                kind = ":clipped-sample" if clip_requested else \
+                    ":clipped-sample-although-clip-not-requested"
             V(f"log_q!=flow-density{kind}:{key}",
               f"flow {j}: {int((~ok).sum())} rows, first {i}: stored "
               f"{got[i]!r} recomputed {ref[i]!r} (it={its[i]})")
@@ -711,7 +716,17 @@ def check_ins_store(mon, sampler, store, name, where):
         # re-derived table: rows in the clamp region of the logit got a
         # different (clamped-point) density than the one they were drawn with
         badq &= ~clamped
-    if badq.any() or np.any(np.isnan(s["logQ"])):
+    if badq.any() and clip_requested and np.all(on_edge[badq]):
+        # recorded finding (clip=True): a sample clipped onto a face of the
+        # unit hypercube keeps the density of the unclipped point; once the
+        # table has been re-derived at the clipped point (resume) the same
+        # defect shows in the stored logQ of exactly those rows
+        i = int(np.argmax(badq))
+        V(f"log_q!=flow-density:clipped-sample:{key}:stored-logQ",
+          f"row {i}: stored logQ {s['logQ'][i]!r}, mixture of the table "
+          f"{logQ[i]!r} (x={x[i].tolist()}, {int(badq.sum())} rows, all on "
+          f"a face of the unit hypercube)")
+    elif badq.any() or np.any(np.isnan(s["logQ"])):
         i = int(np.argmax(badq))
         V(f"logQ!=mixture-of-log_q:{key}",
           f"row {i}: stored {s['logQ'][i]!r} recomputed {logQ[i]!r} "
@@ -1188,7 +1203,17 @@ def _post_idem(mon, fs, job):
         with open(path, "w") as f:
             json.dump(d1, f)
     calls0 = mon.model.points
-    fs.run(**dict({"plot": False}, **job.get("run_kwargs", {})))
+    try:
+        fs.run(**dict({"plot": False}, **job.get("run_kwargs", {})))
+    except Exception as e:  # raised by nessai: running again must be a no-op
+        from .driver import _innermost_nessai_frame
+
+        mon.classes.add("second-run")
+        V(f"{pre}second-run:exception:{type(e).__name__}@"
+          f"{_innermost_nessai_frame(e.__traceback__)}",
+          f"running a finished run again raised {type(e).__name__}: {e}")
+        mon.data["digest"] = d1
+        return
     d2 = result_digest(fs)
     mon.classes.add("second-run")
     for k in d1:
